@@ -77,3 +77,20 @@ CHECKS["C30"] = dict(
     level_text="Random requests and engine outcomes on the real lambda path including its asynchronous clean-up; WAL state is read from the file with the exported kv.Lithium after closing the instance.",
     level_note="Trusted: rapid, the fake engine's scripted streams, the WAL scan.",
     design_ref="DESIGN.md §4 C30", assumptions=WORLD_ASSUME)
+
+CHECKS["C34"] = dict(
+    pkg="cluster", race=True, env={"GORACE": "log_path={work}/race halt_on_error=0"},
+    tests=[T("TestC34", 40, 4000, shrinktime="20s", timeout_q=1800)], level="exploration",
+    technique="property-based testing (rapid) of concurrent batches on the un-mocked world built with -race; oracle = the Go race detector, reports parsed from the GORACE log and keyed by the innermost core functions of the two conflicting accesses",
+    rule="two pods, four nodes, ten workloads; a batch of 3-8 concurrent calls among create (with engine start failures on several instances of one node), remove across nodes and pods, dissociate, realloc, control, send, status get/set, list, capacity, pod resource, and create/list/remove/status through the real rpc.Vibranium over bufconn; the world is raw (no interception layer: its locks would add happens-before edges). Every batch is non-trivial (>= 3 overlapping calls); distinct by hash of the case",
+    level_text="The race detector only sees the interleavings that ran: random batches, no claim of absence. A report whose conflicting accesses both lie outside core is a harness bug (process aborts, exit 2).",
+    level_note="Trusted: the Go race detector, rapid. The embedded etcd, miniredis-free store client, ants pool and the fake engine add incidental synchronisation that can hide a race on a given run.",
+    design_ref="DESIGN.md §4 C34", assumptions=WORLD_ASSUME)
+
+CHECKS["C28"] = dict(
+    pkg="cluster", tests=[T("TestC28", 60, 12000, shrinktime="60s", timeout_q=1800)], level="exploration",
+    technique="property-based testing (rapid) over histories with the real selfmon.RunNodeStatusWatcher on the un-mocked world (etcd): heartbeats are deleted or their lease is revoked (= expiry), the watcher is started before or after the lapse; oracle = polling the raw store for the workloads' status with a generous ceiling",
+    rule="1-3 non-test nodes with heartbeat statuses, 0-3 workloads each (some never reported a status), per node: keep / delete the heartbeat / revoke its lease, pause 0-200 ms between lapses, watcher active before the lapses (65%) or started after; oracle: every workload recorded on a lapsed node shows running=false and healthy=false within 30 s (normal < 1 s; a single expiry is re-run, only a reproduction counts), workloads on nodes with intact heartbeat keep their status. Non-trivial = a lapsed node with >= 1 workload; distinct by hash of the case",
+    level_text="'Eventually' is decided with a real clock and a bound 30x the normal latency, retried once; sampled histories, no claim about all interleavings of the watcher's goroutines.",
+    level_note="Trusted: rapid, lease revocation as the model of TTL expiry, the raw store reads. Redis back end not covered (miniredis publishes no keyspace notifications).",
+    design_ref="DESIGN.md §4 C28", assumptions=WORLD_ASSUME)
